@@ -230,6 +230,13 @@ pub fn gen(seed: u64, tier: &str) -> Vec<Value> {
         if i % 4 == 0 { st["meta"] = status_meta(&mut rng); st["class"] = json!("ordered_lists_with_metadata"); }
         out.push(st);
     }
+    // count: ordered lists of 33, 45 and 120 details (kinds cycling, one RetryInfo only near the end: the set view must still see it)
+    for n in [33usize, 45, 120] {
+        let mut details: Vec<Value> = (0..n).map(|i| rand_detail(&mut rng, 1 + i % 9)).collect();
+        let at = n - 2;
+        details[at] = rand_detail(&mut rng, 0);
+        out.push(json!({"form":"vec","class":"long_lists","code":rng.gen_range(1..17),"msg":str_json("m"),"details":details}));
+    }
     // size: details far larger than any of the above (hundreds of violations / links; 7-12 KB once encoded) - nothing may be cut or dropped
     for (k, n) in [(5usize, 260usize), (8, 300), (2, 280), (4, 200)] {
         let strs = |i: usize| (format!("field.name.{i}"), format!("description of violation number {i}"));
